@@ -130,6 +130,11 @@ func TestVerif_C09Quality(t *testing.T) {
 			c := vC09Cfg{cap: cap, mixed: v&1 == 1, loading: v&2 == 2, warm: v&4 == 4, hotFrac: 2}
 			c.kind = "hot"
 			c.reqs = 40 * cap
+			if c.reqs < 10000 {
+				// the striped read buffers alone hold 64 x 16 reads: a short trace on a tiny cache ends
+				// before the policy has seen the hot keys often enough
+				c.reqs = 10000
+			}
 			if c.reqs > 30000 {
 				c.reqs = 30000
 			}
